@@ -10,6 +10,12 @@ package virtual
 
 //@ pred b2i(b bool) := ite(b, 1, 0)
 
+// Lock order: the handle pools' locks are innermost. Directory and file locks
+// may be held when a handle pool lock is taken (releasing a handle from under
+// a directory lock), so nothing that takes another lock, and no call into
+// code behind an interface, may happen while a pool lock is held.
+//@ leaflock nfsHandlePool.lock -- innermost lock: taken from under directory and file locks (handle release, attribute injection)
+
 // getAndLockIfDirectory works on a LockPile borrowed from its caller: every
 // lock it acquires or releases goes through that pile, so the caller's
 // deferred UnlockAll releases exactly what is held.
